@@ -335,14 +335,14 @@ def chunkUnits (bytes : List Nat) : List (Nat × Nat × List Ann) :=
 /-! ### Function flags: a frame that reads non-locals is created with them
 
 `run_make_function` gives the new function the creating frame's non-locals only when the
-`NON_LOCAL_ACCESS` flag (bit 3) of the `Function` instruction is set; a function created without it
+`NON_LOCAL_ACCESS` flag (`Gen.fnNonLocalAccess`, bit 3) of the `Function` instruction is set; a function created without it
 runs in a frame whose `non_locals` is `None`. In such a frame `LoadNonLocal` cannot see the module's
 exports or wildcard imports, and creating a nested function whose own flag is set raises the
 internal `UnexpectedError` (`non_locals.is_none()`). So: the body of a `Function` instruction may
 contain `LoadNonLocal`, or a `Function` instruction with the flag, only if its own flag is set.
 (The top-level unit and skipped bodies have no creating instruction: nothing is demanded.) -/
 
-def nonLocalFlag (flags : Nat) : Bool := (flags / 8) % 2 == 1
+def nonLocalFlag (flags : Nat) : Bool := (flags / fnNonLocalAccess) % 2 == 1
 
 /-- the instructions of a unit (nested bodies excluded) need the frame's non-locals -/
 def needsNonLocals (items : List Ann) : Bool :=
